@@ -655,6 +655,14 @@ Definition mon_snap (g : ledger) (ts : list tsnap) (ks : list ksnap) : ledger :=
      (checked where the op happened: see mon_after) *)
   (* C08: ephemeral channels that lost their last consumer are gone *)
   let g := flag 8 (forallb (fun tc => match snap_chan ts (fst tc) (snd tc) with None => true | Some _ => false end) (g_gone g)) g in
+  (* C08: nothing that was deleted, or that was ephemeral and has lost its last consumer /
+     channel, is still listed: every topic and channel of the snapshot is one the history
+     created and has not removed since *)
+  let g := flag 8 (forallb (fun tsn => match find_tl g (ts_id tsn) with
+                                       | Some _ => forallb (fun cs => match find_cl g (ts_id tsn) (cs_id cs) with
+                                                                      | Some _ => true | None => false end) (ts_chans tsn)
+                                       | None => false
+                                       end) ts) g in
   let g := g <| g_ch ::= map (fun cl => cl <| l_fin_since := 0 |> <| l_recv_since := 0 |>) |> in
   ((g <| g_last := Some (ts, ks) |>) <| g_prev_failed := false |>) <| g_gone := [] |>.
 
